@@ -29,6 +29,8 @@ BASE_CELLS = [
     [5.0, 4.0, 3.0, 90, 75, 90], [3.0, 4.0, 5.0, 70, 80, 110], [4.1, 5.2, 6.3, 80, 95, 105],
     [3.0, 4.0, 5.0, 60, 75, 100], [5.0, 3.0, 4.0, 120, 100, 75], [2.0, 8.0, 3.0, 90, 90, 90],
     [3.0, 3.0, 3.0, 55, 55, 55], [6.0, 2.5, 4.0, 110, 70, 95],
+    # refined cells: angles a few 1e-4 degrees away from a right angle
+    [4.05, 4.05, 4.05, 90, 90, 90.0008], [3.0, 4.0, 5.0, 89.9995, 90, 90.0004],
 ]
 
 
@@ -293,6 +295,13 @@ def check_list(sh, uc_mod, cell, sym, dsmax, case):
         d = float(np.linalg.norm(np.dot(B, h)))
         if abs(d - ds) > 1e-10:
             sh.violation("gethkls:ds-not-length-of-B.hkl", case, {"hkl": h, "ds": ds, "expected": d})
+            return None
+    # ... and of the object's OWN B matrix (the one orientations are built with): B.hkl has the listed length, B^T.B is the reciprocal metric
+    Blib = np.array(uc.B, float)
+    for h, ds in got.items():
+        d = float(np.linalg.norm(np.dot(Blib, h)))
+        if abs(d - ds) > 1e-9 * max(1.0, ds):
+            sh.violation("gethkls:ds-not-length-of-the-cell's-own-B.hkl", case, {"hkl": h, "ds": ds, "length_of_B_hkl": d})
             return None
     dss = [p[0] for p in peaks]
     if dss and max(dss) >= dsmax:
